@@ -11,7 +11,7 @@ def expectedC03 : List (String × String) := [
   ("file:comparison.py", "c46d05a1308c92ce"),
   ("file:compat.py", "2a259e16acd200bc"),
   ("file:config.py", "142bde514c82c29d"),
-  ("file:transform/basics.py", "ef1ded632cafe787"),
+  ("file:transform/basics.py", "093d71f68c43a00a"),
   ("file:transform/conversions.py", "c717da0d8eb0ba94"),
   ("file:transform/dedup.py", "bd5f47cbc6d0c73d"),
   ("file:transform/fills.py", "dd9addc453365c1c"),
@@ -19,7 +19,7 @@ def expectedC03 : List (String × String) := [
   ("file:transform/headers.py", "b170f0cc5a1c0354"),
   ("file:transform/joins.py", "bb9e0069e4d5e3a6"),
   ("file:transform/maps.py", "e13eb9e40cc9aa94"),
-  ("file:transform/reductions.py", "edf72039afd74a8e"),
+  ("file:transform/reductions.py", "bbf60b10e10110b8"),
   ("file:transform/regex.py", "7acd499a0489265c"),
   ("file:transform/reshape.py", "b1f08e12c952f763"),
   ("file:transform/selects.py", "f935e8905e1e021c"),
